@@ -6,7 +6,8 @@ caught = sys.argv[4:]
 dst = os.path.join("/verif/seeded", name)
 os.makedirs(dst, exist_ok=True)
 for f in os.listdir(os.path.join(src, "_seed")):
-    shutil.copy2(os.path.join(src, "_seed", f), os.path.join(dst, f))
+    if os.path.isfile(os.path.join(src, "_seed", f)):
+        shutil.copy2(os.path.join(src, "_seed", f), os.path.join(dst, f))
 notes = open(os.path.join(dst, "notes.md")).read() if os.path.exists(os.path.join(dst, "notes.md")) else ""
 meta = {
     "property": prop,
